@@ -115,7 +115,9 @@ def norm_array(arr):
         out = np.empty(n, dtype=[('f', '<u8'), ('s', '<i8')])
         out['f'] = arr['second_fractions']
         out['s'] = arr['seconds']
-        return ('ts', n, out.tobytes())
+        # seconds are signed (times before 1904), fractions unsigned: another field type means other values for the same bits
+        tag = 'ts' if (arr.dtype['seconds'].kind == 'i' and arr.dtype['second_fractions'].kind == 'u') else 'ts!' + str(arr.dtype)
+        return (tag, n, out.tobytes())
     arr = np.asarray(arr)
     if arr.dtype.kind == 'O':
         vals = []
